@@ -45,6 +45,40 @@ def main():
             except Exception as e:     # noqa: BLE001
                 row.append(("exc", type(e).__name__))
         out["loads"].append(row)
+    # very deep values: built, encoded, decoded and measured HERE, iteratively (pickling them would need the recursion
+    # the test is about); only texts and small summaries cross the process boundary
+    def build(kind, depth, leaf):
+        v = leaf
+        for i in range(depth):
+            v = [v] if (kind == "array" or (kind == "mixed" and i % 2)) else {"k": v}
+        return v
+
+    def measure(v):
+        d = 0
+        while isinstance(v, (list, dict)) and len(v) == 1:
+            v = v[0] if isinstance(v, list) else next(iter(v.values()))
+            d += 1
+        return d, v
+
+    out["deep"] = []
+    for kind, depth, leaf in req.get("deep", []):
+        try:
+            t = fj.dumps(build(kind, depth, leaf))
+        except Exception as e:     # noqa: BLE001
+            out["deep"].append({"enc": "exc:" + type(e).__name__})
+            continue
+        try:
+            d, lf = measure(fj.loads(t))
+            out["deep"].append({"enc": "ok", "text": t, "dec": "ok", "depth": d, "leaf": lf})
+        except Exception as e:     # noqa: BLE001
+            out["deep"].append({"enc": "ok", "text": t, "dec": "exc:" + type(e).__name__})
+    out["deep_loads"] = []
+    for t in req.get("deep_loads", []):
+        try:
+            d, lf = measure(fj.loads(t))
+            out["deep_loads"].append({"dec": "ok", "depth": d, "leaf": lf})
+        except Exception as e:     # noqa: BLE001
+            out["deep_loads"].append({"dec": "exc:" + type(e).__name__})
     for t in req.get("invalid", []):
         try:
             fj.loads(t)
